@@ -17,7 +17,7 @@ import re
 from vlib.hostlist import (HL, Cli, WFGen, LIMIT, hx, unhx, parse_probe, parse_spec, same_answer, feat_big,
                            feat_longplain, feat_first_group_complete, feat_d16, gen_malformed, exhaustive, names_field, U64,
                            impl_tokens,
-                           VERIF_CORPUS, pinned_classes, cli_phase)
+                           VERIF_CORPUS, pinned_classes, cli_phase, poisoned_classes, state_pairs)
 
 LEVEL = "proof"
 PROPS = "PdshVerif.Props.C15"
@@ -45,9 +45,11 @@ MANIFEST = dict(
          "not proved; harness, generators, gcc trusted")
 
 
-def judge(ctx, s, sp, impl, model, origin):
+def judge(ctx, s, sp, impl, model, origin, extra=None):
     case = {"text": s[:300].decode("latin1"), "expr_hex": hx(s) if len(s) <= 20000 else hx(s[:20000]) + "..",
             "length": len(s), "origin": origin, "impl": impl[:300], "spec": sp[:200]}
+    if extra:
+        case.update(extra)
     if not same_answer(impl, model):
         ctx.disagreement("hl model vs hostlist.c (probe)", "text %r: impl `%s` model `%s`" %
                          (s[:200], impl[:300], model[:300]), case)
@@ -127,6 +129,11 @@ def run(ctx):
     rng = ctx.rng
     if ctx.replay and "expr_hex" not in json.load(open(ctx.replay)).get("case", {}):
         ctx.replay = None       # a theorem/correspondence replay names no input: the whole check is the replay
+    state_only = None
+    if ctx.replay:
+        rc0 = json.load(open(ctx.replay)).get("case", {})
+        if "poison_hex" in rc0:
+            state_only = (rc0.get("poison", "replay"), unhx(rc0["poison_hex"]), unhx(rc0["expr_hex"]))
     ctx.gen_consts(["hostlist"])
     ctx.lean_build([PROPS, "pdshmodel"])
     ctx.audit(PROPS)
@@ -142,12 +149,17 @@ def run(ctx):
                    "bracket or a digit run >= 10; distinct = distinct text"}
     dist = {}
     def stream():
+        if state_only is not None:
+            return
         if ctx.replay:
             rep = json.load(open(ctx.replay))
             yield (unhx(rep["case"]["expr_hex"].rstrip(".")), "replay")
             return
         for s in load_corpus():
             yield (s, "corpus")
+        for s in poisoned_classes():
+            dist["pinned-after-poison-word"] = dist.get("pinned-after-poison-word", 0) + 1
+            yield (s, "pinned-poisoned")
         for s in pinned_classes():
             dist["pinned-classes"] = dist.get("pinned-classes", 0) + 1
             yield (s, "pinned")
@@ -188,6 +200,8 @@ def run(ctx):
                     cov["samples"].append({"text": s.decode("latin1"), "spec": sp, "impl": a[:120]})
         cov["distinct_nontrivial"] = distinct
         dist["forked"] = hl.nfork
+        if not ctx.replay or state_only is not None:
+            state_check(ctx, hl, dist, cov, only=state_only)
         dist["classes(spec -> impl)"] = dict(sorted(classes.items(), key=lambda kv: -kv[1])[:40])
         if not ctx.replay:
             cli_phase(ctx, cli_check, ctx, hl, dist, cov)
@@ -215,6 +229,23 @@ def run(ctx):
         checker_cmd="lake build PdshVerif.Props.C15 && #print axioms on every theorem of Props/C15.lean")
 
 
+def state_check(ctx, hl, dist, cov, only=None):
+    """STATE CARRIED FROM ONE LIBRARY CALL TO THE NEXT: every pinned text (well-formed and malformed) is probed in
+    the call after hostlist_create(POISON) -- errno, the stack (the range table of the previous bracket) and the
+    allocator are as that call left them, as between two -w / -x / file-line words of one pdsh run.  The verdict on
+    a text is a function of the text: same spec, same model answer as for the text alone."""
+    trip = [only] if only is not None else state_pairs()
+    texts = [t for _, _, t in trip]
+    spec = hl.spec(texts)
+    impl, model = hl.sprobe_all([(p, t) for _, p, t in trip])
+    dist["after-poison-call"] = {}
+    for (note, p, t), sp, a, b in zip(trip, spec, impl, model):
+        dist["after-poison-call"][note] = dist["after-poison-call"].get(note, 0) + 1
+        cov["evaluations"] += 1
+        judge(ctx, t, sp, a, b, "after-call", extra={"poison": note, "poison_hex": hx(p),
+                                                     "previous_call": "hostlist_create(%r)" % p[:80].decode("latin1")})
+
+
 def cli_check(ctx, hl, dist, cov, only=None, only_q=None):
     """pdsh -Q -w TEXT: exit status and diagnostic class against the model, safety against the text"""
     rng = ctx.rng
@@ -226,11 +257,16 @@ def cli_check(ctx, hl, dist, cov, only=None, only_q=None):
              b"a[18446744073709551614-18446744073709551615]", b"a[0-99999999999999999999]x", b"a[1]]", b"x" * 1023,
              # an unbalanced word NEXT TO a good one (split.c cuts the argument at commas outside brackets, every
              # comma-word goes through hostlist_push on its own): before, after, between, level going negative
-             b"b,a[1", b"a],b", b"b,a]", b"a[1,b", b"x,a[1]],y", b"a[1-2]b[,c", b"b,a[1]b[", b"a]b[1],c"]
+             b"b,a[1", b"a],b", b"b,a]", b"a[1,b", b"x,a[1]],y", b"a[1-2]b[,c", b"b,a[1]b[", b"a]b[1],c",
+             # state left over from the previous comma-word (errno, the previous bracket's range table, widths)
+             b"b[1,5-7],a[1,]", b"b[1,5-7,9],a[1-3,]x", b"job20240929102030123456789,b[1-3]",
+             b"99999999999999999999999,a[1-3],a[1,]", b"job20240929102030123456789,a[1-99999]",
+             b"w[0000000000000000000000042,1]-x,n[1,0000000000000000000000005]-ib0"]
     # which variant of opt.c is under test: does `-w` go on without a comma-word whose parse failed? (behavioural
     # probe; F15-CLI-WORD-DROPPED.  A repaired tree refuses the whole argument.)
     drops = only_q is None and cli.query("b,a[1", timeout=20)[0] == "ok"
-    dist["cli-variant"] = "failed word dropped silently" if drops else "failed word refused"
+    dist["cli-variant"] = "failed word dropped silently (opt.c before d1c94df: F15-CLI-WORD-DROPPED is back)" if drops else \
+        "failed word refused (repaired opt.c, d1c94df: the default)"
     nslow = 0
     cases = list(fixed) if only is None else [only]
     if only_q:
@@ -277,7 +313,17 @@ def cli_check(ctx, hl, dist, cov, only=None, only_q=None):
         icls = "crash" if cls.startswith("crash") else cls
         v0 = parse_spec(sp)
         unbal = (not v0["ok"]) and "unbalanced" in v0["problems"]
-        if unbal and not drops and icls not in ("ok", "crash", "timeout"):
+        badword_ok = False
+        if icls.startswith("badword:") and not drops and mcls in ("ok", "nohosts"):
+            # repaired opt.c (d1c94df, the default): the argument is refused, the word is quoted.  The Cli model
+            # still mirrors the code as found (the word is dropped): the refusal is right exactly when the quoted
+            # word, on its own, yields no host (the parse fails or the list is empty) -- asked of the model
+            mw = hl.model(["probe %s 10" % hx(unhx(icls[8:]))])[0]
+            badword_ok = mw.startswith("null") or mw.startswith("ok | 0 ")
+            dist["cli-badword-refused"] = dist.get("cli-badword-refused", 0) + badword_ok
+        if badword_ok:
+            pass
+        elif unbal and not drops and icls not in ("ok", "crash", "timeout"):
             pass    # repaired opt.c: the argument is refused where the model (code as found) drops the word
         elif icls != mcls and not (mcls == "crash" and icls in ("ok", "nohosts")):
             ctx.disagreement("hl model (cli) vs pdsh -Q", "text %r: pdsh %s model %s" % (s[:200], cls, m[:200]), case)
